@@ -223,6 +223,7 @@ package grpc
 //@ func recvAndDecompress
 //@   prop C06 C27
 //@   requires p != nil && p.r != nil && s != nil
+//@   requires io.EOF != nil && io.ErrUnexpectedEOF != nil && io.EOF != io.ErrUnexpectedEOF
 //@   assert at call recvMsg#1 arg0 == p && arg1 == maxReceiveMessageSize
 //@   assert at call checkRecvPayload#1 arg0 == pf && arg2 == (compressor != nil || dc != nil) && arg3 == isServer
 //@   assert at call decompress#1 pf == compressionMade && arg0 == compressor && sameslice(arg1, compressed) && arg2 == dc && arg3 == maxReceiveMessageSize
